@@ -87,7 +87,7 @@ def required(tier):
             "subproc_items": 300 * k, "subproc_prefixed_absent": 200 * k, "subproc_app_modes": 4,
             "cross_cases": 4000 * k, "cross_decisive": 1500 * k, "cross_pairs": 5, "cross_ops": 21,
             "evolve_scenarios": 40 * (1 if tier == "quick" else 6), "evolve_op_kinds": 15,
-            "lazy_triggers": 20}
+            "lazy_triggers": 20, "reloads_with_units_new_to_that_registry": 60, "app_registry_swaps": 2}
 
 
 def shards(tier, seed):
@@ -473,7 +473,67 @@ def run_rtx(spec, rec, rng, pools, pint, pintload, CH):
             if missing:
                 rec.violation("unpickle-unit-not-registered", {"recipe": rc, "missing": missing},
                               workload="rt-xreg", kind=rc["kind"])
+    run_rtx_swaps(spec, rec, rng, pools, pint, pintload, CH)
     pint.set_application_registry(pint._DEFAULT_REGISTRY)
+
+
+def run_rtx_swaps(spec, rec, rng, pools, pint, pintload, CH):
+    """The SAME pickles loaded again after the application registry was replaced (through
+    pint.set_application_registry or through the wrapper's own .set()) by a registry that never met their
+    units: every load attaches to the registry installed at that moment, registers the prefixed units THERE,
+    and refuses a unit that registry does not define."""
+    A = registry_for(pintload, "float")
+    A.define("smoot_rtx = 1.7018 * meter")
+    blobs = []
+    for rc, o, magkind, npre in make_objects(rec, rng, pools, A, "float", max(40, spec["n"] // 10), CH,
+                                             prefixed=0.9, cover=False):
+        blobs.append((rc, list(o._units), pickle.dumps(o, rng.randrange(6)), CH.kind_of(o)))
+    foreign = [("nanosmoot_rtx", pickle.dumps(A.Quantity(2.0, "nanosmoot_rtx"), 2)),
+               ("smoot_rtx", pickle.dumps(A.Unit("smoot_rtx"), 4))]
+    wrapper = pint.get_application_registry()
+    for k in range(4):
+        B = pintload.registry()
+        how = ("set_application_registry", "ApplicationRegistry.set")[k % 2]
+        if k % 2:
+            wrapper.set(B)
+        else:
+            pint.set_application_registry(B)
+        rec.observe("app_registry_swaps", how)
+        if pint.get_application_registry().get() is not B:
+            rec.violation("application-registry-not-installed", {"how": how}, workload="rt-xreg-swap")
+            continue
+        for rc, names, blob, kind in blobs:
+            rec.count("reloads_after_swap")
+            rec.case(("swap", k, repr(names)), nontrivial=k > 0)
+            absent = [n for n in names if n not in B._units]
+            try:
+                r = pickle.loads(blob)
+            except Exception as e:  # noqa: BLE001
+                rec.violation("unpickle-raised", {"recipe": rc, "how": how, "swap": k, "err": repr(e)[:200]},
+                              workload="rt-xreg-swap", kind=kind)
+                continue
+            if absent:
+                rec.count("reloads_with_units_new_to_that_registry")
+            if r._REGISTRY is not B:
+                rec.violation("unpickled-into-wrong-registry", {"recipe": rc, "how": how, "swap": k},
+                              workload="rt-xreg-swap", kind=kind)
+            missing = [n for n in names if n not in B._units]
+            if missing:
+                rec.violation("unpickle-unit-not-registered", {"recipe": rc, "missing": missing, "how": how, "swap": k},
+                              workload="rt-xreg-swap", kind=kind)
+        for name, blob in foreign:
+            rec.count("reloads_of_units_unknown_to_that_registry")
+            try:
+                r = pickle.loads(blob)
+            except pint.UndefinedUnitError:
+                continue
+            except Exception as e:  # noqa: BLE001
+                rec.violation("unpickle-raised", {"unit": name, "how": how, "swap": k, "err": repr(e)[:200]},
+                              workload="rt-xreg-swap", kind="foreign-unit")
+                continue
+            rec.violation("unpickle-accepted-unit-unknown-to-the-application-registry",
+                          {"unit": name, "how": how, "swap": k, "result": repr(r)[:100]},
+                          workload="rt-xreg-swap", kind="foreign-unit")
 
 
 def run_containers(spec, rec, rng, pools, pint, pintload, CH):
